@@ -420,8 +420,11 @@ Inductive cexpr :=
 | CFailIf (i : nat) (v : value)          (* errors when column i Compare-equals v, else yields column i *)
 | CTrueUnless (i : nat) (v : value)      (* a predicate: errors when column i equals v, else TRUE *)
 | CEq (i : nat) (v : value)              (* column i = v, as a boolean *)
-| CFailAlways.
-Definition ev (e : cexpr) : evalfn := fun r =>
+| CFailAlways
+| CCall (a b : cexpr).                   (* execution.FunctionCall of a strict two-argument function (nullCheckIndices [0;1]) *)
+(* FunctionCall.Evaluate: EVERY argument is evaluated, in order (the first error is returned), and only then the NULL
+   check of the strict positions is made; the function itself here returns its first argument *)
+Fixpoint ev (e : cexpr) : evalfn := fun r =>
   match e with
   | CCol i => match nth_error (vals r) i with Some v => Ok v | None => Panic 3 end
   | CConst v => Ok v
@@ -435,6 +438,8 @@ Definition ev (e : cexpr) : evalfn := fun r =>
                | Some x => Ok (VBool (vcompare x v =? 0))
                | None => Panic 3 end
   | CFailAlways => Err 1
+  | CCall a b => obind (ev a r) (fun x => obind (ev b r) (fun y =>
+                   match x, y with VNull, _ | _, VNull => Ok VNull | _, _ => Ok x end))
   end.
 
 (* group by column 0, count(<arg>) — SimpleGroupBy with aggregates.Count: state per key (OverallRecordCount,
